@@ -11,7 +11,7 @@
 #define VFS_PAGE 4096
 
 typedef struct vfile {
-    char      name[96];
+    char      name[1200]; /* whole path: never truncated (vfs_create refuses longer ones) */
     int       exists;
     long      size;
     uint8_t **pages;
